@@ -77,7 +77,7 @@ func randomString(length uint8) string {
 	defer randomReaderPool.Put(reader)
 
 	b := make([]byte, length)
-	r := make([]byte, length+(length/4)) // perf: avoid read from rand.Reader many times
+	r := make([]byte, int(length)+int(length)/4) // perf: avoid read from rand.Reader many times
 	var i uint8 = 0
 
 	// security note:
